@@ -126,6 +126,19 @@ POOL = [
     # names that mean something elsewhere in a data format: other properties and the object's own attributes
     ("property-format", "Format"), ("property-sheet", "Sheet"), ("property-quoting", "quoting"),
     ("attribute-is-valid", "is valid"), ("attribute-is-valid-underscore", "is_valid"),
+    # quoted texts whose backslash escape is incomplete or names nothing
+    ("escape-x-short", '"\\x"'), ("escape-x-one-digit", "'\\x4'"), ("escape-u-short", '"\\u12"'),
+    ("escape-big-u-short", '"\\U0001"'), ("escape-name-unknown", '"\\N{foo}"'), ("escape-name-open", '"\\N{"'),
+    ("escape-octal-big", '"\\777"'), ("escape-out-of-range", '"\\U00110000"'), ("escape-lone-surrogate", '"\\ud800"'),
+    # a line continuation, then something
+    ("continuation", "\\\ncustomer_id"), ("continuation-only", "\\\n"),
+    # numbers with more digits than Python converts between int and decimal text (4300)
+    ("hex-beyond-int-max-str-digits", {"prefix": "0x", "repeat": "f", "n": 3600}),
+    ("digits-beyond-int-max-str-digits", {"repeat": "9", "n": 4400}),
+    ("range-to-hex-beyond-int-max-str-digits", {"prefix": "0...0x", "repeat": "f", "n": 3600}),
+    # characters whose lower(), casefold() and upper() forms disagree (Cherokee, dotted capital I, sharp s, Kelvin)
+    ("cherokee-small", "\uab70xcel"), ("cherokee-capital", "\u13a0eader"), ("dotted-capital-i", "\u0130"),
+    ("sharp-s", "\u00df"), ("kelvin-sign", "\u212a"), ("final-sigma", "\u03a3\u03c2"),
 ]
 POOL_NAMES = [name for name, _ in POOL]
 assert len(set(POOL_NAMES)) == len(POOL_NAMES)
@@ -137,10 +150,11 @@ def enc_value(value):
 
 def dec_value(value):
     if isinstance(value, dict):
-        if sorted(value) != ["n", "repeat"] or not isinstance(value["repeat"], str) or len(value["repeat"]) != 1 \
-                or not isinstance(value["n"], int) or not 0 <= value["n"] <= 20000:
+        if sorted(set(value) - {"prefix"}) != ["n", "repeat"] or not isinstance(value["repeat"], str) \
+                or len(value["repeat"]) != 1 or not isinstance(value["n"], int) or not 0 <= value["n"] <= 20000 \
+                or not isinstance(value.get("prefix", ""), str) or len(value.get("prefix", "")) > 8:
             raise HarnessError("malformed value %r" % (value,))
-        return value["repeat"] * value["n"]
+        return value.get("prefix", "") + value["repeat"] * value["n"]
     if not isinstance(value, str):
         raise HarnessError("malformed value %r" % (value,))
     return value
@@ -245,8 +259,21 @@ _WORD = re.compile(r"[A-Za-z_][A-Za-z_0-9]*")
 _SAFE_CHARACTERS = set("0123456789 <>=!+-*/%()[]{}\"',.:")
 
 
+# rules for the DistinctCount check written out here (so nothing generated is ever evaluated): they evaluate to a
+# truth value while the CID is loaded (count 0) and raise for one particular count that only data can produce
+VETTED_COUNT_RULES = (
+    ["color <= 100 / (count - %d)" % n for n in (1, 2, 3, 4)] +
+    ["color != 7 %% (count - %d)" % n for n in (1, 2, 3)] +
+    ["color < [9, 9, 9][count]", "color < [9, 9, 9, 9][count]", "color < {0: 9, 1: 9, 2: 9}[count]",
+     "color < (9, 9)[count]", "color < 9 if count < 3 else color < None", "color < 9 if count < 2 else int('x')",
+     # the field name on a continuation line, and a continuation after it
+     "\\\ncolor < 5", "color \\\n< 5", "color < \\\n5"])
+
+
 def eval_safe(text):
     """May ``text`` stand in the rule cell of a DistinctCount check?"""
+    if text in VETTED_COUNT_RULES:
+        return True
     if len(text) > 80 or "**" in text or "__" in text or "<<" in text or ">>" in text:
         return False
     if "*" in text and re.search(r"[0-9]{4}", text):
@@ -299,8 +326,8 @@ def values_for(fmt, r, c):
             text = "color " + dec_value(value)
             if eval_safe(text) and text not in result:
                 result.append(text)
-        result.extend(text for text in ["color", "surname < 5", "color < 5 < 9", "color == (1, 2)", "color - 1"]
-                      if text not in result)
+        result.extend(text for text in ["color", "surname < 5", "color < 5 < 9", "color == (1, 2)", "color - 1"] +
+                      VETTED_COUNT_RULES if text not in result)
     return result
 
 
@@ -573,8 +600,13 @@ def load_cid(rows):
 
 
 def cid_summary(cid):
-    return (str(cid.data_format), [(str(f), f.example) for f in cid.field_formats],
-            [(name, str(cid.check_map[name])) for name in cid.check_names])
+    """Only used to classify a case as 'loaded, but means something else'; rendering a CID as text is not part of the
+    property, so a CID that cannot be rendered just counts as different."""
+    try:
+        return (str(cid.data_format), [(str(f), f.example) for f in cid.field_formats],
+                [(name, str(cid.check_map[name])) for name in cid.check_names])
+    except Exception as error:
+        return ("cannot be rendered", type(error).__name__)
 
 
 _BASE_SUMMARIES = {}
@@ -608,13 +640,16 @@ def _write_rows(obs, cid, table):
         writer.close()
 
 
-def data_stages(obs, fmt, cid, path, text=None, table=None):
+def data_stages(obs, fmt, cid, path, text=None, table=None, allowed=None):
     """Write ``table`` (delimited, fixed) with the freshly loaded ``cid`` - first, because a writer need not reset the
-    checks a reader has used - then read ``path`` / ``text`` under it."""
+    checks a reader has used - then read ``path`` / ``text`` under it.  ``allowed``: with valid data under a hostile CID
+    a problem of the CID may also surface while the data are processed (a count expression that cannot be evaluated for
+    the count the data produce), so the caller allows InterfaceError there; with hostile data only data errors."""
+    allowed = allowed or errors.DataError
     if fmt in ("delimited", "fixed") and table is not None:
-        obs.stage("write", errors.DataError, lambda: _write_rows(obs, cid, table))
-    obs.stage("read", errors.DataError, lambda: list(cutplace.rows(cid, path)))
-    ok, outputs = obs.stage("read", errors.DataError, lambda: list(cutplace.rows(cid, path, on_error="yield")))
+        obs.stage("write", allowed, lambda: _write_rows(obs, cid, table))
+    obs.stage("read", allowed, lambda: list(cutplace.rows(cid, path)))
+    ok, outputs = obs.stage("read", allowed, lambda: list(cutplace.rows(cid, path, on_error="yield")))
     if ok:
         rejected = sum(1 for output in outputs if isinstance(output, Exception))
         if rejected:
@@ -624,9 +659,9 @@ def data_stages(obs, fmt, cid, path, text=None, table=None):
             if isinstance(output, Exception) and not isinstance(output, errors.DataError):
                 obs.problem("read", output)
     if text is not None:
-        obs.stage("read", errors.DataError,
+        obs.stage("read", allowed,
                   lambda: list(cutplace.rows(cid, io.StringIO(text, newline=""), on_error="yield")))
-    obs.stage("validate", errors.DataError, lambda: cutplace.validate(cid, path))
+    obs.stage("validate", allowed, lambda: cutplace.validate(cid, path))
 
 
 def main_stage(obs, cid_path, data_path):
@@ -704,7 +739,8 @@ def observe_cid(fmt, subs):
                 text = delimited_text(table_for(fmt))
             elif fmt == "fixed":
                 text = fixed_text(table_for(fmt))
-            data_stages(obs, fmt, cid, scratch.valid[fmt], text, table_for(fmt))
+            data_stages(obs, fmt, cid, scratch.valid[fmt], text, table_for(fmt),
+                        allowed=(errors.DataError, errors.InterfaceError))
         main_stage(obs, scratch.write_cid("case-cid.csv", rows), scratch.valid[fmt])
 
     return _observe(run), state
